@@ -100,6 +100,16 @@ type Holder2 struct {
 
 var cust2T = reflect.TypeOf(Cust2(0))
 
+type CustMap map[string]int64
+
+type HolderM struct {
+	M CustMap `json:"m"`
+}
+
+var custMapT = reflect.TypeOf(CustMap(nil))
+
+var errAbandon = fmt.Errorf("caller abandons the file")
+
 const holderSchema = `{"type":"record","name":"HolderC","fields":[{"name":"c","type":"long"}]}`
 
 func buildAndDecode() Obs {
@@ -470,6 +480,61 @@ func Scenarios() []Scenario {
 			}
 			return ""
 		}})
+	// S9: a registered builder that builds its sub-codecs through the library (BuildMapCodec re-enters the codec
+	// builder) ∥ Register of an unrelated type ∥ the same build again: nobody may wait for ever
+	out = append(out, Scenario{Name: "S9 re-entrant registered builder || Register(other) || same build", Threads: 3,
+		Setup: func(env *Env) *State {
+			avro.Register(custMapT, func(s avro.Schema, t reflect.Type, omit bool) (avro.Codec, error) {
+				return avro.BuildMapCodec(s, t, omit)
+			})
+			return &State{Env: env}
+		},
+		Body: func(st *State, tid int) Obs {
+			if tid == 1 {
+				avro.Register(cust2T, builder(3000))
+				return Obs{S: "ok"}
+			}
+			s, err := avro.SchemaFromString(`{"type":"record","name":"HM","fields":[{"name":"m","type":{"type":"map","values":"long"}}]}`)
+			if err != nil {
+				return Obs{Err: err.Error()}
+			}
+			codec, err := s.Codec(HolderM{})
+			if err != nil {
+				return Obs{Err: err.Error()}
+			}
+			var h HolderM
+			if err := codec.Read(avro.NewReadBuf([]byte{2, 2, 'k', 10, 0}), unsafe.Pointer(&h)); err != nil {
+				return Obs{Err: err.Error()}
+			}
+			if len(h.M) != 1 || h.M["k"] != 5 {
+				return Obs{S: fmt.Sprintf("DIFF decoded %v", h.M)}
+			}
+			return Obs{S: "ok"}
+		},
+		Check: allOK})
+	// S10: every thread first abandons a ReadFile from inside the callback (bank closed by the callback, error
+	// returned), then decodes with a shared codec keeping its bank open across further decoding: whatever the
+	// abandoned read did with its bank must not make two threads share one
+	out = append(out, Scenario{Name: "S10 abandoned ReadFile (callback closes bank, returns error) then shared-codec decode x2", Threads: 2,
+		Setup: func(env *Env) *State {
+			st := recState(env, 3, func(i int) int { return 330 })
+			blocks := []ref.Block{{Count: 2, Payload: append(append([]byte(nil), st.Data[0]...), st.Data[1]...)}}
+			st.File, _ = ref.WriteFile(ref.StdMeta(recSchema.Print(nil), "null", true), "null", [16]byte{9, 8, 7}, blocks)
+			return st
+		},
+		Body: func(st *State, tid int) Obs {
+			n := 0
+			err := avro.ReadFile(&filedrv.Reader{Data: st.File, Mode: 0}, Rec{}, func(val unsafe.Pointer, rb *avro.ResourceBank) error {
+				n++
+				rb.Close()
+				return errAbandon
+			})
+			if err != errAbandon || n != 1 {
+				return Obs{S: fmt.Sprintf("DIFF abandoned read: %d callbacks, err=%v", n, err)}
+			}
+			return decodeBody(st, tid, true)
+		},
+		Check: allOK})
 	// S7: mixed
 	out = append(out, Scenario{Name: "S7 mixed: Register || shared decode with new zone || build+decode", Threads: 3,
 		Setup: func(env *Env) *State {
